@@ -584,6 +584,9 @@ func TestC05Deep(t *testing.T) {
 		s = `{"type":"Point","coordinates":[1,2],"x":` + strings.Repeat("[", d) + strings.Repeat("]", d) + `}`
 	case "member-object":
 		s = `{"type":"Point","coordinates":[1,2],"x":` + strings.Repeat(`{"a":`, d) + "1" + strings.Repeat("}", d) + `}`
+	case "whitespace":
+		// 32 bytes of white space per unit of depth in front of (and a little behind) the document: linear work, no stack
+		s = strings.Repeat(" \n\t\r", 8*d) + `{"type":"Point","coordinates":[1,2]}` + strings.Repeat(" ", d)
 	}
 	obj, err := geojson.Parse(s, nil)
 	if (obj == nil) == (err == nil) {
